@@ -14,10 +14,10 @@ package media
 // seq(q): ghost sequence of the elements held by a queue, oldest first (FIFO is the dependency's contract)
 //@ extern func (q *queue.SyncQueue) Len() (n int)
 //@   modifies
-//@   ensures n == len(seq(q))
+//@   ensures n == len(seq(q.Queue()))
 //@ extern func (q *queue.SyncQueue) Push(x interface{}) ()
 //@   modifies
-//@   appends seq(q), x
+//@   appends seq(q.Queue()), x
 //@ extern func (f stats.Flow) AddIn(size int64) ()
 //@   modifies misc(f)
 //@ extern func (p format.Packet) Size() (n int)
@@ -26,12 +26,188 @@ package media
 // ---- per-consumer enqueue with GOP-aligned discarding (C01, C04) ------------------------------------
 //@ func (c *consumption) send(pack Pack, keyframe bool) ()
 //@   requires c != nil && c.recvQueue != nil && pack != nil && c.Flow != nil
-//@   modifies c.discarding, seq(c.recvQueue), misc(c.Flow)
+//@   modifies c.discarding, seq(c.recvQueue.Queue()), misc(c.Flow)
 //@   calls_only (*github.com/cnotch/queue.SyncQueue).Len, (*github.com/cnotch/queue.SyncQueue).Push, (github.com/cnotch/ipchub/stats.Flow).AddIn, (github.com/cnotch/ipchub/av/format.Packet).Size
-//@   ensures keyframe ==> c.discarding == ((old(c.discarding) && old(len(seq(c.recvQueue))) >= c.maxQLen) || (!old(c.discarding) && old(len(seq(c.recvQueue))) > c.maxQLen))
+//@   ensures keyframe ==> c.discarding == ((old(c.discarding) && old(len(seq(c.recvQueue.Queue()))) >= c.maxQLen) || (!old(c.discarding) && old(len(seq(c.recvQueue.Queue()))) > c.maxQLen))
 //@   ensures !keyframe ==> c.discarding == old(c.discarding)
 //@   ensures c.discarding != old(c.discarding) ==> keyframe
-//@   ensures !c.discarding ==> len(seq(c.recvQueue)) == old(len(seq(c.recvQueue))) + 1 && seq(c.recvQueue)[old(len(seq(c.recvQueue)))] == pack
-//@   ensures c.discarding ==> len(seq(c.recvQueue)) == old(len(seq(c.recvQueue)))
-//@   ensures forall(i, 0, old(len(seq(c.recvQueue))), seq(c.recvQueue)[i] == old(seq(c.recvQueue)[i]))
-//@   ensures len(seq(c.recvQueue)) <= old(len(seq(c.recvQueue))) + 1
+//@   ensures !c.discarding ==> len(seq(c.recvQueue.Queue())) == old(len(seq(c.recvQueue.Queue()))) + 1 && seq(c.recvQueue.Queue())[old(len(seq(c.recvQueue.Queue())))] == pack
+//@   ensures c.discarding ==> len(seq(c.recvQueue.Queue())) == old(len(seq(c.recvQueue.Queue())))
+//@   ensures forall(i, 0, old(len(seq(c.recvQueue.Queue()))), seq(c.recvQueue.Queue())[i] == old(seq(c.recvQueue.Queue())[i]))
+//@   ensures len(seq(c.recvQueue.Queue())) <= old(len(seq(c.recvQueue.Queue()))) + 1
+
+// ---- stream registry and consumer attachment (C05, C03, C01, C02) ------------------------------------------
+//@ import "sync"
+//@ import "sync/atomic"
+// sync.Map, sequential view: mapAt(m, key) is the value stored under key (nil: absent)
+//@ extern func (m *sync.Map) Load(key interface{}) (value interface{}, ok bool)
+//@   modifies
+//@   ensures value == mapAt(m, key) && ok == (value != nil)
+//@ extern func (m *sync.Map) Store(key interface{}, value interface{}) ()
+//@   requires value != nil
+//@   modifies
+//@   mapStore m, key, value
+//@ extern func (m *sync.Map) Delete(key interface{}) ()
+//@   modifies
+//@   mapDelete m, key
+//@ extern func atomic.LoadInt32(addr *int32) (val int32)
+//@   modifies
+//@   ensures val == *addr
+//@ extern func atomic.StoreInt32(addr *int32, val int32) ()
+//@   modifies *addr
+//@   ensures *addr == val
+
+// consumer sets: ghostInt(m,"n") is the number of registered consumers, ghostBool(c,"visible") says that the
+// publisher can reach consumption c (it is in a set). Assumed contracts (sync.Map + atomic counter inside).
+//@ func (m *consumptions) Add(c *consumption) ()
+//@   trusted
+//@   requires m != nil && c != nil && !ghostBool(c, "visible")
+//@   modifies ghostBool(c, "visible"), ghostInt(m, "n")
+//@   ensures ghostBool(c, "visible") && ghostInt(m, "n") == old(ghostInt(m, "n")) + 1
+//@ func (m *consumptions) Remove(cid CID) (c *consumption)
+//@   trusted
+//@   requires m != nil
+//@   modifies ghostInt(m, "n"), ghostInt(m, "removed")
+//@   ensures c != nil ==> c.cid == cid && c.recvQueue != nil && ghostInt(m, "n") == old(ghostInt(m, "n")) - 1
+//@   ensures c == nil ==> ghostInt(m, "n") == old(ghostInt(m, "n"))
+//@ func (m *consumptions) RemoveAndCloseAll() ()
+//@   trusted
+//@   requires m != nil
+//@   modifies ghostInt(m, "n"), ghostInt(m, "closedAll")
+//@   ensures ghostInt(m, "n") == 0 && ghostInt(m, "closedAll") == old(ghostInt(m, "closedAll")) + 1
+//@ func (m *consumptions) Count() (n int)
+//@   trusted
+//@   requires m != nil
+//@   modifies
+//@   ensures n == ghostInt(m, "n")
+
+//@ extern func (q *queue.SyncQueue) Signal() ()
+//@   modifies ghostInt(q, "signals")
+//@   ensures ghostInt(q, "signals") == old(ghostInt(q, "signals")) + 1
+
+// closing a consumption: idempotent; sets closed and wakes the delivery goroutine exactly once
+//@ func (c *consumption) Close() (err error)
+//@   requires c != nil && c.recvQueue != nil
+//@   modifies c.closed, ghostInt(c.recvQueue, "signals")
+//@   ensures c.closed && err == nil
+//@   ensures old(c.closed) ==> ghostInt(c.recvQueue, "signals") == old(ghostInt(c.recvQueue, "signals"))
+//@   ensures !old(c.closed) ==> ghostInt(c.recvQueue, "signals") == old(ghostInt(c.recvQueue, "signals")) + 1
+
+// join replay is unsynchronised: it must run before the consumer becomes visible to the publisher
+//@ extern func (pc packCache) PushTo(q *queue.SyncQueue) (n int)
+//@   requires q != nil
+//@   modifies seq(q.Queue())
+//@   ensures len(seq(q.Queue())) >= old(len(seq(q.Queue()))) && forall(i, 0, old(len(seq(q.Queue()))), seq(q.Queue())[i] == old(seq(q.Queue())[i]))
+//@ func (c *consumption) sendGop(cache packCache) (n int)
+//@   requires c != nil && c.recvQueue != nil && c.Flow != nil && cache != nil && !ghostBool(c, "visible")
+//@   modifies seq(c.recvQueue.Queue()), misc(c.Flow)
+//@   ensures len(seq(c.recvQueue.Queue())) >= old(len(seq(c.recvQueue.Queue()))) && forall(i, 0, old(len(seq(c.recvQueue.Queue()))), seq(c.recvQueue.Queue())[i] == old(seq(c.recvQueue.Queue())[i]))
+
+// stopping one consumer removes and closes that consumption only
+//@ func (s *Stream) StopConsume(cid CID) ()
+//@   requires s != nil && 0 <= ghostInt(&s.consumptions, "n") && ghostInt(&s.consumptions, "n") <= 1<<31 && 0 <= ghostInt(&s.flvConsumptions, "n") && ghostInt(&s.flvConsumptions, "n") <= 1<<31
+//@   modifies ghostInt(&s.consumptions, "n"), ghostInt(&s.consumptions, "removed"), ghostInt(&s.flvConsumptions, "n"), ghostInt(&s.flvConsumptions, "removed"), all()
+//@   ensures ghostInt(&s.consumptions, "n") + ghostInt(&s.flvConsumptions, "n") <= old(ghostInt(&s.consumptions, "n") + ghostInt(&s.flvConsumptions, "n"))
+//@   ensures ghostInt(&s.consumptions, "n") + ghostInt(&s.flvConsumptions, "n") >= old(ghostInt(&s.consumptions, "n") + ghostInt(&s.flvConsumptions, "n")) - 1
+
+//@ import "time"
+//@ import "io"
+//@ import "github.com/cnotch/xlog"
+//@ import "github.com/cnotch/ipchub/av/format/mpegts"
+//@ import "github.com/cnotch/ipchub/av/format/hls"
+//@ extern func (m *mpegts.Muxer) Close() (err error)
+//@   modifies misc(m)
+//@ extern func (g *hls.SegmentGenerator) Close() (err error)
+//@   modifies misc(g)
+//@ extern func (p *hls.Playlist) Close() (err error)
+//@   modifies misc(p)
+//@ extern func (pc packCache) Reset() ()
+//@   modifies misc(pc)
+//@ extern func (c io.Closer) Close() (err error)
+//@   modifies misc(c)
+//@ extern func (m flvMuxer) Close() (err error)
+//@   modifies misc(m)
+//@ extern func (d rtpDemuxer) Close() (err error)
+//@   modifies misc(d)
+//@ extern func time.Now() (t time.Time)
+//@   modifies
+//@ extern func queue.NewSyncQueue() (q *queue.SyncQueue)
+//@   modifies
+//@   fresh q
+//@   ensures len(seq(q.Queue())) == 0
+//@ extern func stats.NewFlow() (f stats.Flow)
+//@   modifies
+//@   fresh f
+//@   ensures f != nil
+//@ extern func (l *xlog.Logger) With(opts ...xlog.Option) (r *xlog.Logger)
+//@   modifies
+//@ extern func xlog.Fields(fields ...xlog.Field) (r xlog.Option)
+//@   modifies
+//@ extern func xlog.F(key string, value interface{}) (f xlog.Field)
+//@   modifies
+//@ extern func atomic.AddUint32(addr *uint32, delta uint32) (n uint32)
+//@   modifies *addr
+//@   ensures *addr == old(*addr) + delta && n == *addr
+//@ extern func atomic.StoreUint32(addr *uint32, val uint32) ()
+//@   modifies *addr
+//@   ensures *addr == val
+//@ func (pt PacketType) String() (s string)
+//@   trusted
+//@   modifies
+
+// a stream is closed once: its status leaves StreamOK and both consumer sets are emptied and closed
+//@ func (s *Stream) close(status int32) (err error)
+//@   requires s != nil && s.flvCache != nil && s.flvMuxer != nil && s.rtpDemuxer != nil && s.cache != nil && (s.tsMuxer != nil ==> s.hlsSG != nil && s.hlsPlaylist != nil)
+//@   modifies s.status, ghostInt(&s.consumptions, "n"), ghostInt(&s.consumptions, "closedAll"), ghostInt(&s.flvConsumptions, "n"), ghostInt(&s.flvConsumptions, "closedAll"), misc(s.tsMuxer), misc(s.hlsSG), misc(s.hlsPlaylist), misc(s.flvCache), misc(s.flvMuxer), misc(s.rtpDemuxer), misc(s.cache)
+//@   ensures err == nil
+//@   ensures old(s.status) != StreamOK ==> s.status == old(s.status) && ghostInt(&s.consumptions, "closedAll") == old(ghostInt(&s.consumptions, "closedAll")) && ghostInt(&s.consumptions, "n") == old(ghostInt(&s.consumptions, "n"))
+//@   ensures old(s.status) == StreamOK ==> s.status != StreamOK && (status == StreamReplaced ==> s.status == StreamReplaced) && (status != StreamReplaced ==> s.status == StreamClosed)
+//@   ensures old(s.status) == StreamOK ==> ghostInt(&s.consumptions, "n") == 0 && ghostInt(&s.flvConsumptions, "n") == 0 && ghostInt(&s.consumptions, "closedAll") == old(ghostInt(&s.consumptions, "closedAll")) + 1 && ghostInt(&s.flvConsumptions, "closedAll") == old(ghostInt(&s.flvConsumptions, "closedAll")) + 1
+
+// attach: the join replay is written into the new consumer's queue BEFORE the consumer becomes visible to the
+// publisher (sendGop requires "not visible", Add makes it visible), and nothing is enqueued afterwards here
+//@ func (s *Stream) startConsume(consumer Consumer, packetType PacketType, extra string, useGopCache bool) (cid CID)
+//@   requires s != nil && s.cache != nil && s.flvCache != nil && s.logger != nil
+//@   modifies all()
+//@   assert[call:Add] true
+//@   ensures true
+
+// ---- registry: one live stream per path (C05) ---------------------------------------------------------------------
+//@ func runZeroConsumersCloseTask(s *Stream, closedStatus int32) ()
+//@   trusted
+//@   requires s != nil
+//@   modifies ghostInt(s, "closeTasks")
+//@   ensures ghostInt(s, "closeTasks") == old(ghostInt(s, "closeTasks")) + 1
+//@ func (s *Stream) ConsumerCount() (n int)
+//@   trusted
+//@   requires s != nil
+//@   modifies
+//@   ensures n == ghostInt(&s.consumptions, "n") + ghostInt(&s.flvConsumptions, "n")
+//@ func (s *Stream) Close() (err error)
+//@   trusted
+//@   requires s != nil
+//@   modifies s.status, ghostInt(&s.consumptions, "n"), ghostInt(&s.consumptions, "closedAll"), ghostInt(&s.flvConsumptions, "n"), ghostInt(&s.flvConsumptions, "closedAll"), misc(s)
+//@   ensures s.status != StreamOK && (old(s.status) != StreamOK ==> s.status == old(s.status))
+
+// streamOK(x): a registry value is a non-nil *Stream with its collaborators in place
+//@ spec func streamOK(x interface{}) bool = typeIs(x, "*Stream") && x.(*Stream) != nil && x.(*Stream).flvCache != nil && x.(*Stream).flvMuxer != nil && x.(*Stream).rtpDemuxer != nil && x.(*Stream).cache != nil && (x.(*Stream).tsMuxer != nil ==> x.(*Stream).hlsSG != nil && x.(*Stream).hlsPlaylist != nil)
+
+// Regist: afterwards the path resolves to s (the most recently registered stream); a different previous holder is
+// retired: closed at once with StreamReplaced when it has no consumers, otherwise a close task is posted;
+// registering the current holder again changes nothing
+//@ func Regist(s *Stream) ()
+//@   requires s != nil && (mapAt(&streams, s.path) != nil ==> streamOK(mapAt(&streams, s.path)))
+//@   modifies mapAt(&streams, s.path), all()
+//@   ensures mapAt(&streams, s.path) == s
+//@   ensures old(mapAt(&streams, s.path)) == s ==> s.status == old(s.status)
+//@   ensures old(mapAt(&streams, s.path)) != nil && old(mapAt(&streams, s.path)) != s && old(mapAt(&streams, s.path).(*Stream).ConsumerCount()) <= 0 && old(mapAt(&streams, s.path).(*Stream).status) == StreamOK ==> old(mapAt(&streams, s.path)).(*Stream).status == StreamReplaced
+//@   ensures old(mapAt(&streams, s.path)) != nil && old(mapAt(&streams, s.path)) != s && old(mapAt(&streams, s.path).(*Stream).ConsumerCount()) > 0 ==> ghostInt(old(mapAt(&streams, s.path)).(*Stream), "closeTasks") == old(ghostInt(mapAt(&streams, s.path).(*Stream), "closeTasks")) + 1 && old(mapAt(&streams, s.path)).(*Stream).status == old(mapAt(&streams, s.path).(*Stream).status)
+
+// Unregist: removes the registry entry only if it is s itself (a retired stream never removes its successor);
+// s is closed in every case
+//@ func Unregist(s *Stream) ()
+//@   requires s != nil && (mapAt(&streams, s.path) != nil ==> typeIs(mapAt(&streams, s.path), "*Stream"))
+//@   modifies mapAt(&streams, s.path), s.status, ghostInt(&s.consumptions, "n"), ghostInt(&s.consumptions, "closedAll"), ghostInt(&s.flvConsumptions, "n"), ghostInt(&s.flvConsumptions, "closedAll"), misc(s)
+//@   ensures old(mapAt(&streams, s.path)) == s ==> mapAt(&streams, s.path) == nil
+//@   ensures old(mapAt(&streams, s.path)) != s ==> mapAt(&streams, s.path) == old(mapAt(&streams, s.path))
+//@   ensures s.status != StreamOK
